@@ -20,7 +20,7 @@ EXPLANATION = (
     "remove_enter_idle return a bool on every path, with both outcomes present; (5) SIB: the select and zmq loops (same state machine) agree on guards, helpers and results."
     ' Added after seed round 3: (7) a registry whose stored values are int parameters (file descriptors) is queried with `in` / `is not None`, never by the truthiness of the stored value.'
     " Round 4: the Twisted wrapper catches BaseException (the reactor swallows everything else); (8) self-made registry handles come from a counter, never from the registry's size; (9) the Twisted idle timer callback lowers its flag on every normal path."
-    " Round-4 triage: (10) an idle pass calls a callback only while it is still registered; (11) a dispatch batch (select, zmq) calls a watch only while it is still the registered one; (12) twisted's doRead returns nothing; (13) the zmq poll time-out is rounded up and an empty poller sleeps; (5, restated) select / zmq dispatch an alarm after a time-out or under an explicit due test, and do not require `not ready` (no starvation); (14) fdopen()/open() of a descriptor parameter passes closefd=False (the descriptor stays its caller's); (1, extended) the tornado wrapper catches BaseException like the twisted one (asyncio re-raises only SystemExit / KeyboardInterrupt itself)."
+    " Round-4 triage: (10) an idle pass calls a callback only while it is still registered; (11) a dispatch batch (select, zmq) calls a watch only while it is still the registered one; (12) twisted's doRead returns nothing; (13) the zmq poll time-out is rounded up and an empty poller sleeps; (5, restated) select / zmq dispatch an alarm after a time-out or under an explicit due test, and do not require `not ready` (no starvation); (14) fdopen()/open() of a descriptor parameter passes closefd=False (the descriptor stays its caller's); (1, extended) the tornado wrapper catches BaseException like the twisted one (asyncio re-raises only SystemExit / KeyboardInterrupt itself); (15) every loop forgets an alarm - in the terms its remove_alarm() consults - before the callback runs."
 )
 NOT_DECIDED = "Exactly-once, not-before-due and due-order of alarms, watch repetition, idle-before-quiescence under all interleavings - scheduler semantics under time."
 ASSUMPTIONS = ["The behaviour of the foreign scheduling APIs on a raising callable (log and continue) is taken from their documentation and recorded in the per-class table."]
@@ -602,8 +602,74 @@ def rule_descriptor_ownership(ctx: Ctx) -> RuleResult:
     return rr
 
 
+def rule_fired_alarm_forgotten(ctx: Ctx) -> RuleResult:
+    """`remove_alarm()` answers "did the alarm (still) exist".  An alarm that has fired does not: select / zmq pop it
+    from the heap, tornado deletes it from its pending table, twisted's DelayedCall raises AlreadyCalled.  Every
+    loop has to forget the alarm *before* its callback runs (the callback itself may ask), in the terms its own
+    remove_alarm() consults: a removal from the registry attribute remove_alarm() edits, or - where remove_alarm()
+    asks the handle (`cancelled()`, `cancel_called`) - a cancel() of that handle."""
+    p = ctx.p
+    rr = RuleResult("ORDER", "C13.15", "an alarm is forgotten - in the terms remove_alarm() consults - before its callback is called", floor=6)
+    loops = dict(LOOPS)
+    loops["glib"] = GLIB
+    for key, q in loops.items():
+        cls = p.cls(q)
+        rm = cls.methods.get("remove_alarm")
+        al = cls.methods.get("alarm")
+        if rm is None or al is None:
+            raise AnalysisError(f"{q}: alarm / remove_alarm not found")
+        # what remove_alarm consults
+        registry = {n.value.attr for n in rm.own_nodes() if isinstance(n, ast.Subscript) and isinstance(n.ctx, ast.Del) and isinstance(n.value, ast.Attribute)}
+        registry |= {c.func.value.attr for c in rm.own_nodes() if isinstance(c, ast.Call) and isinstance(c.func, ast.Attribute) and c.func.attr in ("remove", "pop") and isinstance(c.func.value, ast.Attribute)}
+        by_exception = any(isinstance(h.type, (ast.Tuple, ast.Name)) and "AlreadyCalled" in ast.unparse(h.type) for n in rm.own_nodes() if isinstance(n, ast.Try) for h in n.handlers)
+        if by_exception:
+            rr.inst(f"{key}: the library's handle knows it was called", True, {"loop": key, "remove_alarm_handles": "AlreadyCalled"})
+            continue
+        cb_param = al.params[-1]
+        cands = [al] + [f for f in p.functions.values() if f.parent is al] + [f for f in p.all_class_functions(cls) if f.name in ("_loop", "_alarm_task")]
+        sites = []
+        for f in cands:
+            cfg = cfg_of(f)
+            popped = set()
+            for n in f.own_nodes():
+                if isinstance(n, ast.Assign) and isinstance(n.value, ast.Call) and ast.unparse(n.value.func) == "heapq.heappop" and isinstance(n.targets[0], ast.Tuple):
+                    popped |= {e.id for e in n.targets[0].elts if isinstance(e, ast.Name)}
+            for c in f.own_nodes():
+                if not isinstance(c, ast.Call):
+                    continue
+                direct = isinstance(c.func, ast.Name) and (c.func.id == cb_param and (f is al or f.parent is al) or c.func.id in popped or (f.name == "_alarm_task" and c.func.id == f.params[-1]))
+                wrapped = isinstance(c.func, ast.Call) and isinstance(c.func.func, ast.Attribute) and c.func.func.attr == "handle_exit" and c.func.args and isinstance(c.func.args[0], ast.Name) and c.func.args[0].id == cb_param
+                if direct or wrapped:
+                    sites.append((f, cfg, c))
+        if not sites:
+            raise AnalysisError(f"{q}: the call of the alarm callback was not found")
+        for f, cfg, c in sites:
+            cn = nodes_where(cfg, lambda x, c=c: x is c)
+            forget = []
+            for n in cfg.nodes:
+                a = n.ast
+                if a is None or n.kind in ("for", "with", "handler"):
+                    continue
+                for x in walk_no_nested(a):
+                    if registry:
+                        if isinstance(x, ast.Subscript) and isinstance(x.ctx, ast.Del) and isinstance(x.value, ast.Attribute) and x.value.attr in registry:
+                            forget.append(n)
+                        elif isinstance(x, ast.Call) and isinstance(x.func, ast.Attribute) and x.func.attr in ("remove", "pop") and isinstance(x.func.value, ast.Attribute) and x.func.value.attr in registry:
+                            forget.append(n)
+                        elif isinstance(x, ast.Call) and ast.unparse(x.func) == "heapq.heappop" and x.args and isinstance(x.args[0], ast.Attribute) and x.args[0].attr in registry:
+                            forget.append(n)
+                    elif isinstance(x, ast.Call) and isinstance(x.func, ast.Attribute) and x.func.attr == "cancel" and not x.args:
+                        forget.append(n)
+            ok = bool(forget) and all(cfg.dominated(n, forget) for n in cn)
+            rr.inst(f"{key}: {short(f)}: {norm(c, 30)}", True, {"loop": key, "dispatch": f"{short(f)}: {norm(c, 40)}", "remove_alarm_consults": sorted(registry) or "the handle's cancelled state", "forgotten_first": ok})
+            if not ok:
+                what = f"self.{'/'.join(sorted(registry))}" if registry else "the handle (cancelled() / cancel_called)"
+                rr.add(finding("ORDER", f, c, f"`{norm(c, 40)}` runs the alarm callback while the alarm is still known to remove_alarm() (which consults {what}): remove_alarm() of an alarm that has fired reports success - the other loops report failure - and, for a registry of library source ids, removes an id that may belong to something else by now", construct=f"{key}: alarm callback called before the alarm is forgotten", informational=(q == GLIB)))
+    return rr
+
+
 def run(ctx: Ctx):
-    return [rule_wrap(ctx), rule_snap(ctx), rule_idle_arming(ctx), rule_remove_returns(ctx), rule_select_zmq(ctx), rule_trio_checkpoint(ctx), rule_presence(ctx), rule_handle_unique(ctx), rule_twisted_idle_flag(ctx), rule_idle_removed(ctx), rule_batch_dispatch(ctx), rule_doread_result(ctx), rule_zmq_wait(ctx), rule_descriptor_ownership(ctx)]
+    return [rule_wrap(ctx), rule_snap(ctx), rule_idle_arming(ctx), rule_remove_returns(ctx), rule_select_zmq(ctx), rule_trio_checkpoint(ctx), rule_presence(ctx), rule_handle_unique(ctx), rule_twisted_idle_flag(ctx), rule_idle_removed(ctx), rule_batch_dispatch(ctx), rule_doread_result(ctx), rule_zmq_wait(ctx), rule_descriptor_ownership(ctx), rule_fired_alarm_forgotten(ctx)]
 
 
 from ..mutants import Mut  # noqa: E402
@@ -611,6 +677,9 @@ from ..mutants import Mut  # noqa: E402
 _S = "urwid/event_loop/select_loop.py"
 _A = "urwid/event_loop/asyncio_loop.py"
 MUTANTS = [
+    Mut("asyncio-fired-alarm-still-removable", _A, "AsyncioEventLoop.alarm", "            handle.cancel()\n            callback()", "            callback()", "ORDER|event_loop.asyncio_loop.AsyncioEventLoop.alarm"),
+    Mut("trio-fired-alarm-still-removable", "urwid/event_loop/trio_loop.py", "TrioEventLoop._alarm_task", "            scope.cancel()\n            callback()", "            callback()", "ORDER|event_loop.trio_loop.TrioEventLoop._alarm_task"),
+    Mut("tornado-alarm-forgotten-after-callback", "urwid/event_loop/tornado_loop.py", "TornadoEventLoop.alarm", "            with suppress(KeyError):\n                del self._pending_alarms[handle]\n\n            self.handle_exit(callback)()", "            self.handle_exit(callback)()\n            with suppress(KeyError):\n                del self._pending_alarms[handle]", "ORDER|event_loop.tornado_loop.TornadoEventLoop.alarm"),
     Mut("tornado-wrapper-catches-exception-only", "urwid/event_loop/tornado_loop.py", "TornadoEventLoop.handle_exit", "            except BaseException as exc:", "            except Exception as exc:", "WRAP|event_loop.tornado_loop.TornadoEventLoop.handle_exit"),
     Mut("zmq-watch-file-owns-descriptor", "urwid/event_loop/zmq_loop.py", "ZMQEventLoop.watch_file", "fd = os.fdopen(fd, closefd=False)", "fd = os.fdopen(fd)", "OWN|event_loop.zmq_loop.ZMQEventLoop.watch_file"),
     Mut("zmq-poll-timeout-truncated", "urwid/event_loop/zmq_loop.py", "ZMQEventLoop._loop", "self._poller.poll(math.ceil(timeout * 1000))", "self._poller.poll(timeout * 1000)", "BOUND|event_loop.zmq_loop.ZMQEventLoop._loop"),
